@@ -1,6 +1,7 @@
 package client
 
 import (
+	"context"
 	"fmt"
 	"net/http"
 	"net/http/httptest"
@@ -95,6 +96,56 @@ func (httpTransport) Open(ld *LogData, rl *Realised) (*sunlight.Client, func() i
 		return nil, nil, err
 	}
 	return c, func() int { h.mu.Lock(); defer h.mu.Unlock(); return h.hits }, nil
+}
+
+// cacheTransport is the in-process HTTP server behind a client with a
+// permanent tile cache (ClientConfig.Cache) that an earlier, untampered scan of
+// the same tree has filled: the tampered answers meet cached, verified tiles.
+type cacheTransport struct{ root string }
+
+func (cacheTransport) Name() string { return "httpcache" }
+
+func (t cacheTransport) Open(ld *LogData, rl *Realised) (*sunlight.Client, func() int, error) {
+	dir, err := os.MkdirTemp(t.root, "cache")
+	if err != nil {
+		return nil, nil, err
+	}
+	newClient := func(h http.Handler) (*sunlight.Client, error) {
+		return sunlight.NewClient(&sunlight.ClientConfig{
+			MonitoringPrefix: "http://c12.verif.invalid/",
+			PublicKey:        ld.Key.Public(),
+			HTTPClient:       &http.Client{Transport: handlerTransport{h}},
+			UserAgent:        "verif-c12 (+https://verif.invalid)",
+			Cache:            dir,
+		})
+	}
+	prist := map[string][]byte{}
+	if rl.Tree == ld.Mis {
+		prist = ld.misOverrides(rl.Size)
+	}
+	warm, err := newClient(&tamperingHandler{objs: ld.Objs, over: prist, targets: map[string]bool{}})
+	if err != nil {
+		os.RemoveAll(dir)
+		return nil, nil, err
+	}
+	n := int64(0)
+	for range warm.AllEntries(context.Background(), treeHead(rl.Tree, rl.Size), 0) {
+		n++
+	}
+	if err := warm.Err(); err != nil || n != rl.Size {
+		os.RemoveAll(dir)
+		return nil, nil, fmt.Errorf("warming the cache: %d of %d entries, %v", n, rl.Size, err)
+	}
+	h := &tamperingHandler{objs: ld.Objs, over: rl.Over, targets: map[string]bool{}}
+	for _, t := range rl.Targets {
+		h.targets[t] = true
+	}
+	c, err := newClient(h)
+	if err != nil {
+		os.RemoveAll(dir)
+		return nil, nil, err
+	}
+	return c, func() int { os.RemoveAll(dir); h.mu.Lock(); defer h.mu.Unlock(); return h.hits }, nil
 }
 
 // ----------------------------------------------------------------- file://, gzip+file://
